@@ -923,6 +923,27 @@ def bad_request_line(buf):
         return 'HTTP-version %r is not HTTP/digits.digits' % version
     return None
 
+
+def bad_header_line(buf):
+    """Reference reading of the header lines of the first message in ``buf`` (block complete, no backslash or NUL in it):
+    a line that is not a continuation (obs-fold) must be ``field-name ":" value`` with a non-empty token as name
+    (RFC 7230 3.2; blanks between name and colon are not judged here).  Returns a description or None."""
+    end = buf.find(b'\r\n\r\n')
+    if end < 0:
+        return None
+    block = buf[:end]
+    if b'\\' in block or b'\x00' in block or block.startswith(b'\r\n'):
+        return None
+    for i, ln in enumerate(block.split(b'\r\n')[1:]):
+        if ln[:1] in (b' ', b'\t') and i > 0:
+            continue
+        if b':' not in ln:
+            return 'header line %r has no colon' % ln[:40]
+        name = ln.split(b':', 1)[0].rstrip(b' \t')
+        if not _TCHARS.match(name):
+            return 'header name %r is not a token' % name[:40]
+    return None
+
 # ---------------------------------------------------------------------------------------------- shape counters (evidence only)
 
 _UNSENDABLE = re.compile('[\x00\r\n]|[^\x00-\xff]')
